@@ -134,6 +134,7 @@ func (e *E1) Run() map[string]interface{} {
 		total.Points += st.Points
 		total.Rechecked += st.Rechecked
 		total.StepLimits += st.StepLimits
+		total.Recycled += st.Recycled
 		if st.MaxThreads > total.MaxThreads {
 			total.MaxThreads = st.MaxThreads
 		}
@@ -170,6 +171,7 @@ func (e *E1) Run() map[string]interface{} {
 		"scenarios":                     len(e.Scenarios),
 		"max_threads":                   total.MaxThreads,
 		"step_limit_hits":               total.StepLimits,
+		"worker_processes_recycled":     total.Recycled,
 		"exhaustive":                    exhaustive,
 		"per_scenario":                  perScn,
 		"counters":                      total.Counters,
